@@ -12,7 +12,7 @@ import re
 
 import common as C
 
-SRC_FILES = ['src/order.rs', 'src/shape.rs', 'src/index.rs', 'src/lib.rs', 'src/arithmetic.rs', 'src/iter/iter_mut.rs', 'src/swap.rs', 'src/iter.rs']
+SRC_FILES = ['src/order.rs', 'src/shape.rs', 'src/index.rs', 'src/lib.rs', 'src/arithmetic.rs', 'src/iter/iter_mut.rs', 'src/swap.rs', 'src/iter.rs', 'src/construct.rs']
 GEN_DIR = os.path.join(C.BUILD, 'gen')
 
 # which kernel functions each property's theorems rest on
@@ -24,6 +24,8 @@ VIEWS = ['Matrix_iter_nth_major_axis_vector_unchecked', 'Matrix_iter_nth_minor_a
          'Matrix_iter_nth_major_axis_vector_unchecked_mut', 'Matrix_iter_nth_minor_axis_vector_unchecked_mut',
          'Matrix_iter_nth_major_axis_vector_mut', 'Matrix_iter_nth_minor_axis_vector_mut',
          'Matrix_iter_nth_row', 'Matrix_iter_nth_col', 'Matrix_iter_nth_row_mut', 'Matrix_iter_nth_col_mut']
+
+CTORS = ['Matrix_new', 'Matrix_with_capacity', 'Matrix_with_default', 'Matrix_with_value', 'Matrix_with_initializer']
 
 OBLIGATIONS = {
     'C03': ITER_MACHINES,
@@ -37,7 +39,7 @@ OBLIGATIONS = {
     'C06': ['AxisShape_major_stride', 'AxisShape_minor_stride', 'Matrix_major_stride', 'Matrix_minor_stride', 'Matrix_major', 'Matrix_minor',
             ] + VIEWS + ITER_MACHINES,
     'C07': ['AxisIndex_swap', 'AxisIndex_from_flattened', 'AxisIndex_to_flattened'],
-    'C08': ['Shape_size', 'Shape_try_to_axis_shape', 'Shape_to_axis_shape_unchecked', 'Matrix_check_size', 'AxisShape_size'],
+    'C08': ['Shape_size', 'Shape_try_to_axis_shape', 'Shape_to_axis_shape_unchecked', 'Matrix_check_size', 'AxisShape_size'] + CTORS,
     'C09': ['Shape_size', 'Shape_try_to_axis_shape', 'Shape_to_axis_shape_unchecked', 'Matrix_reshape', 'Matrix_size', 'AxisShape_size'],
     'C10': ['AxisIndex_from_index', 'AxisIndex_is_out_of_bounds', 'Matrix_major_stride', 'Matrix_minor_stride', 'Matrix_major', 'Matrix_minor',
             'Matrix_swap_major_axis_vectors', 'Matrix_swap_minor_axis_vectors', 'Matrix_swap_rows', 'Matrix_swap_cols'],
@@ -46,7 +48,7 @@ OBLIGATIONS = {
     'C13': ['AxisIndex_from_wrapping_index', 'AxisIndex_to_flattened', 'Matrix_is_empty', 'AxisShape_major', 'AxisShape_minor'],
     'C14': ['Matrix_major', 'Matrix_minor', 'Matrix_major_stride'],
     'C15': ['Index_from_flattened', 'Index_to_flattened', 'AxisIndex_to_index', 'AxisIndex_from_flattened', 'AxisIndex_from_index'],
-    'C19': ['Shape_size', 'Shape_try_to_axis_shape', 'Shape_to_axis_shape_unchecked', 'Matrix_check_size'],
+    'C19': ['Shape_size', 'Shape_try_to_axis_shape', 'Shape_to_axis_shape_unchecked', 'Matrix_check_size', 'Index_from_flattened'] + CTORS,
 }
 
 
